@@ -28,7 +28,7 @@ from .. import translate as T
 from . import _an
 
 PROP = "C20"
-GEN_REGIONS = ["Attrs", "ResultQueries"]
+GEN_REGIONS = ["Attrs", "ResultQueries", "EntryPoints"]
 THEOREMS = {
     "SpecKitV.Props.AttrsA": ["psd_alias", "asd_sq", "ps_def", "csd_alias", "cs_def", "tf_alias", "cf_def", "cf_db_def", "deg_rad",
                               "cf_rad_def", "Gyx_conj", "Hyx_conj", "none_table_cross", "none_table_auto"],
@@ -43,6 +43,16 @@ THEOREMS = {
         "gen_get_measurement_clamp_cplx", "gen_get_measurement_array",
         "gen_to_dataframe_eq_model", "gen_to_dataframe_columns", "gen_result_dir_spec", "gen_dir_served", "gen_dir_public",
         "RQ.mem_sortedSetDiff", "RQ.nodup_sortedSetDiff"],
+    # the translated constructor of SpectrumResult, the module-level entry points, _select_backend, _check_starts_bounds (Gen/EntryPoints,
+    # regenerated each run) ARE the specification Model/EntryPoints
+    "SpecKitV.Props.EntryPointsGen": [
+        "EPG.gen_result_init_eq_model", "EPG.gen_result_entry", "EPG.gen_result_D_rows", "EPG.gen_result_D_uniform", "EPG.gen_result_nf",
+        "EPG.emptyObjectFill_eq", "EPG.objectArrayOfList_uniform", "EPG.normEntry_D_rows", "EPG.normEntry_float_key", "EPG.normEntry_int_key",
+        "EPG.normEntry_int_key_integral", "EPG.normEntry_XY", "EPG.normEntry_unknown_key",
+        "EPG.gen_result_float_preserved", "EPG.gen_result_int_preserved", "EPG.gen_result_XY_preserved", "EPG.gen_result_unknown_passthrough",
+        "EPG.gen_result_D_column", "EPG.objectArrayOfList_uniform_shape",
+        "EPG.gen_entry_points_forward", "EPG.gen_entry_points_sigs", "EPG.gen_select_backend_eq_model", "EPG.gen_select_backend_table",
+        "EPG.gen_check_starts_bounds_iff"],
 }
 CONTRACTS = ["np.interp(x, xp, fp) for strictly increasing xp is the clamped piecewise-linear interpolant Model.interp (tied by correspondence "
              "on real results: grid points, interior points, both clamps)",
@@ -64,8 +74,36 @@ CONTRACTS = ["np.interp(x, xp, fp) for strictly increasing xp is the clamped pie
              "Np.Query / Np.asarrayQ / Np.isscalarQ / Np.item stand for the freq argument (Python or NumPy scalar vs anything else), "
              "np.asarray(freq, dtype=float), np.isscalar(freq), ndarray.item() of a size-1 array",
              "Np.frameSetIndex d k stands for pd.DataFrame(d).set_index(k): index = column k, remaining columns in dictionary order; callable / "
-             "isinstance(., np.ndarray) / .shape of an attribute value are abstract descriptions (callable, isNdarray, shape) of the attribute table"]
-ASSUMPTIONS = ["translated each run and proved equal to the hand model (Props/ResultQueriesGen): compute()'s assembly of the _lpsd_core rows "
+             "isinstance(., np.ndarray) / .shape of an attribute value are abstract descriptions (callable, isNdarray, shape) of the attribute table",
+             # contracts of the translated region EntryPoints (definitions in lean/SpecKitV/Np/EntryPoints.lean; each exercised by the
+             # generated-vs-real differential run corr_entry_points)
+             "EP.Val / EP.Item / EP.Num = the value model of a results dictionary (1-D bool/int64/float64/complex128 ndarrays, Python lists and tuples "
+             "of numbers or of start vectors, 1-D and 2-D object ndarrays, Python scalars, `opaque` = an object every numeric conversion rejects); "
+             "EP.modelled = the inputs inside the model (outside it — 2-D numeric arrays, nested non-numeric lists under a key other than D, ints "
+             "beyond int64, non-finite floats cast to int64, None / numeric strings as values — the differential run only counts the case)",
+             "EP.dictCopy = dict(d) (new dictionary, same bindings: identity on association lists; the translator REJECTS `self._data = results_dict` "
+             "without the copy); EP.dictGet / dictHas / dictGetD / dictSet / dictItems = d[k] / k in d / d.get(k, v) / d[k] = v (existing key keeps its "
+             "position) / list(d.items()); EP.foldlOpt / EP.optMap / EP.enumerate = a for loop / list comprehension whose body may raise / enumerate",
+             "EP.emptyObject n = np.empty(n, dtype=object) (1-D, n cells holding None); EP.objSet arr i d = `arr[i] = d` on a 1-D OBJECT array with an "
+             "integer index: the object itself becomes the cell, no shape inspection (so the element-wise fill Np.emptyObjectFill is ALWAYS 1-D: "
+             "theorem EPG.emptyObjectFill_eq)",
+             "Np.objectArrayOfList items = np.array(items, dtype=object) / np.asarray(items, dtype=object): non-empty list whose elements are ALL "
+             "sequences of ONE common length m -> 2-D len(items) x m object array of the individual numbers (also for a single element, also m = 0); "
+             "otherwise the 1-D object array of the elements (only reachable through a changed source: the shipped constructor does not call it)",
+             "EP.asarray = np.asarray(list of numbers): complex128 if any complex, else float64 if any float, else int64 if any int, else bool, "
+             "empty -> float64; ragged / mixed nesting raises; EP.ascontiguousarray dt v = np.ascontiguousarray(v, dtype=dt): 1-D, same numbers, "
+             "scalar -> length 1, int64 <- float TRUNCATES toward zero, float64/int64 <- complex128 ndarray keeps the real part (ComplexWarning) "
+             "but a Python complex raises TypeError; EP.asarrayItemInt64 = np.asarray(d, dtype=np.int64) of one start vector (number -> 0-d array; "
+             "None / complex / str raise); EP.iter / EP.len / EP.shape0 / EP.dtypeIsObject = iteration (rows of a 2-D object array) / len / "
+             ".shape[0] / `.dtype == object` (AttributeError for lists, tuples, Python scalars)",
+             "EP.CallArgs = positional values in order + keyword arguments (explicit ones, then the forwarded **kwargs); SpectrumAnalyzer and the "
+             "analyzer's methods are PARAMETERS of the translated wrappers; EP.Sig = parameter names / keyword-only names with default None / **kwargs",
+             "EP.amin / EP.amax = int(starts.min()) / int(starts.max()) (ValueError on an empty array); EP.size = starts.size; the module flags "
+             "_CUDA_ENABLED / _NUMBA_ENABLED are parameters of Gen._select_backend; only the CLASS of a raised exception is modelled"]
+ASSUMPTIONS = ["translated each run and proved equal to the specification (Props/EntryPointsGen): SpectrumResult.__init__ (hypothesis: the keys of the "
+               "results dictionary are distinct — true of every dict; `none` = raises for inputs inside EP.modelled), __len__, lpsd / compute_spectrum / "
+               "compute_single_bin as call forwarding over abstract callables, core._select_backend, core._check_starts_bounds",
+               "translated each run and proved equal to the hand model (Props/ResultQueriesGen): compute()'s assembly of the _lpsd_core rows "
                "(hypotheses: distinct non-negative bin indices, i.e. the contract of _lpsd_core(np.arange(nf))), the cache protocol of "
                "SpectrumResult.__getattr__ (hypothesis: the name is public and is a formula name or a key of the result dictionary; otherwise "
                "AttributeError, also proved), get_measurement (all real inputs), to_dataframe's column selection and __dir__'s name list "
@@ -1437,6 +1475,419 @@ def corr_result_queries(ctx, P: C.Part, names: List[str]) -> None:
     P.notes.append(f"result-queries correspondence: {__import__('time').time() - t0:.1f}s")
 
 
+# ---------------------------------------------------------------- generated region EntryPoints vs the real code
+_EP_FLOAT_KEYS = ["f", "r", "b", "S12", "S2", "XX", "YY", "M2", "O", "compute_t"]
+_EP_INT_KEYS = ["L", "K", "navg", "i"]
+
+
+class _EpOpaque:
+    """registry of objects outside the value model (non-numeric str, dict): the same object gets the same id on the way in and out"""
+
+    def __init__(self):
+        self.objs: List[Any] = []
+
+    def id(self, o: Any) -> int:
+        for j, x in enumerate(self.objs):
+            if x is o:
+                return j
+        self.objs.append(o)
+        return len(self.objs) - 1
+
+
+def _ep_num(x: Any) -> Optional[str]:
+    if isinstance(x, (bool, np.bool_)):
+        return "b1" if x else "b0"
+    if isinstance(x, (int, np.integer)):
+        return f"i{int(x)}"
+    if isinstance(x, (float, np.floating)):
+        return "r" + C.f2h(float(x))
+    if isinstance(x, (complex, np.complexfloating)):
+        return "c" + C.f2h(complex(x).real) + "," + C.f2h(complex(x).imag)
+    return None
+
+
+def _ep_nums(xs) -> Optional[str]:
+    toks = [_ep_num(x) for x in xs]
+    if any(t is None for t in toks):
+        return None
+    return " ".join([str(len(toks))] + toks)
+
+
+def _ep_item(x: Any, reg: _EpOpaque) -> str:
+    if x is None:
+        return "N"
+    n = _ep_num(x)
+    if n is not None:
+        return "n " + n
+    if isinstance(x, (list, tuple)):
+        t = _ep_nums(x)
+        if t is not None:
+            return ("l " if isinstance(x, list) else "t ") + t
+    if isinstance(x, np.ndarray):
+        if x.dtype == np.int64 and x.ndim == 1:
+            return "i " + C.iarr(x)
+        if x.dtype == np.float64 and x.ndim == 1:
+            return "f " + C.arr(x)
+        if x.dtype == np.int64 and x.ndim == 0:
+            return f"z {int(x)}"
+        if x.dtype == object and x.ndim == 1:
+            t = _ep_nums(list(x))
+            if t is not None:
+                return "r " + t
+    if isinstance(x, (str, dict)):
+        return f"o {reg.id(x)}"
+    return "?item:" + type(x).__name__
+
+
+def _ep_value(v: Any, reg: _EpOpaque) -> str:
+    """a Python / NumPy value in the token grammar of the driver (`?…` = outside the grammar)"""
+    if isinstance(v, np.ndarray):
+        if v.ndim == 1 and v.dtype == np.bool_:
+            return " ".join(["bv", str(len(v))] + [str(int(b)) for b in v])
+        if v.ndim == 1 and v.dtype == np.int64:
+            return "iv " + C.iarr(v)
+        if v.ndim == 1 and v.dtype == np.float64:
+            return "fv " + C.arr(v)
+        if v.ndim == 1 and v.dtype == np.complex128:
+            return " ".join(["cv", str(len(v))] + [C.f2h(z.real) + " " + C.f2h(z.imag) for z in v])
+        if v.ndim == 1 and v.dtype == object:
+            return " ".join(["ov", str(len(v))] + [_ep_item(x, reg) for x in v])
+        if v.ndim == 2 and v.dtype == object:
+            toks = [_ep_num(x) for x in v.ravel()]
+            if all(t is not None for t in toks):
+                return " ".join(["om", str(v.shape[0]), str(v.shape[1])] + toks)
+        return f"?ndarray:{v.dtype}:{v.shape}"
+    if isinstance(v, (list, tuple)):
+        return " ".join(["li" if isinstance(v, list) else "tu", str(len(v))] + [_ep_item(x, reg) for x in v])
+    n = _ep_num(v)
+    if n is not None and not isinstance(v, np.generic):
+        return "sc " + n
+    if isinstance(v, (str, dict)):
+        return f"op {reg.id(v)}"
+    return "?value:" + type(v).__name__
+
+
+def _ep_dict(d: Dict[str, Any], reg: _EpOpaque) -> str:
+    return " ".join([str(len(d))] + [f"{k} {_ep_value(v, reg)}" for k, v in d.items()])
+
+
+def _ep_vector(rng: np.random.Generator, n: int, cls: str) -> Any:
+    """one per-bin quantity in a random representation"""
+    ints = [int(x) for x in rng.integers(-50, 5000, size=n)]
+    flts = [float(x) for x in np.round(rng.normal(size=n) * 10 ** float(rng.integers(-3, 4)), 6)]
+    if cls == "int" and rng.random() < 0.6:
+        flts = [float(z) for z in ints]                      # integral floats under an int key
+    if n and rng.random() < 0.1 and cls != "int":
+        flts[int(rng.integers(0, n))] = float(rng.choice([np.nan, np.inf, -np.inf]))
+    cpx = [complex(a, b) for a, b in zip(flts, [float(x) for x in np.round(rng.normal(size=n), 4)])]
+    bools = [bool(x) for x in rng.integers(0, 2, size=n)]
+    form = str(rng.choice(["f64", "f64", "i64", "bool", "c128", "list-f", "list-i", "list-b", "list-mixed", "list-c", "tuple-f", "tuple-i", "tuple-c",
+                           "scalar", "objvec-num", "str", "dict", "ragged-list"]))
+    if form == "f64":
+        return np.array(flts, dtype=np.float64)
+    if form == "i64":
+        return np.array(ints, dtype=np.int64)
+    if form == "bool":
+        return np.array(bools, dtype=np.bool_)
+    if form == "c128":
+        return np.array([z if np.isfinite(z.real) else complex(1.5, z.imag) for z in cpx], dtype=np.complex128)
+    if form == "list-f":
+        return list(flts)
+    if form == "list-i":
+        return list(ints)
+    if form == "list-b":
+        return list(bools)
+    if form == "list-mixed":
+        return [ints[j] if j % 3 == 0 else (bools[j] if j % 3 == 1 else flts[j]) for j in range(n)]
+    if form == "list-c":
+        return [z if j % 2 else flts[j] for j, z in enumerate(cpx)]
+    if form == "tuple-f":
+        return tuple(flts)
+    if form == "tuple-i":
+        return tuple(ints)
+    if form == "tuple-c":
+        return tuple(cpx)
+    if form == "scalar":
+        return [3, 2.5, True, 1 + 2j][int(rng.integers(0, 4))]
+    if form == "objvec-num":
+        a = np.empty(n, dtype=object)
+        for j in range(n):
+            a[j] = [ints[j], flts[j], bools[j]][j % 3]
+        return a
+    if form == "str":
+        return "not-a-number"
+    if form == "dict":
+        return {"a": 1}
+    return [[1, 2], [3]] if n else []                          # ragged nesting: np.asarray raises
+
+
+def _ep_starts(rng: np.random.Generator, nf: int) -> Any:
+    """the per-bin start table in a random representation and shape class"""
+    shape = str(rng.choice(["ragged", "uniform", "uniform", "all-one", "with-empty"]))
+    if shape == "uniform":
+        ks = [int(rng.integers(1, 6))] * nf
+    elif shape == "all-one":
+        ks = [1] * nf
+    elif shape == "with-empty":
+        ks = [int(rng.integers(0, 3)) for _ in range(nf)]
+    else:
+        ks = [int(rng.integers(1, 7)) for _ in range(nf)]
+    rows = [[int(x) for x in np.sort(rng.integers(0, 10000, size=k))] for k in ks]
+    form = str(rng.choice(["list-of-i64", "list-of-i64", "list-of-i64", "list-of-lists", "list-of-tuples", "list-mixed", "list-of-f64", "objvec", "tuple",
+                           "i64-vector", "list-of-ints", "list-with-None", "list-of-floatlists", "list-with-str"]))
+    tag = f"{shape}.{form}"
+    if form == "list-of-i64":
+        return tag, [np.array(r, dtype=np.int64) for r in rows]
+    if form == "list-of-lists":
+        return tag, [list(r) for r in rows]
+    if form == "list-of-tuples":
+        return tag, [tuple(r) for r in rows]
+    if form == "list-mixed":
+        return tag, [np.array(r, dtype=np.int64) if j % 3 == 0 else (list(r) if j % 3 == 1 else tuple(r)) for j, r in enumerate(rows)]
+    if form == "list-of-f64":
+        return tag, [np.array(r, dtype=np.float64) + (0.75 if j % 2 else 0.0) for j, r in enumerate(rows)]
+    if form == "objvec":
+        a = np.empty(nf, dtype=object)
+        for j, r in enumerate(rows):
+            a[j] = np.array(r, dtype=np.int64) if j % 2 == 0 else list(r)
+        return tag, a
+    if form == "tuple":
+        return tag, tuple(np.array(r, dtype=np.int64) for r in rows)
+    if form == "i64-vector":
+        return tag, np.array([r[0] if r else 0 for r in rows], dtype=np.int64)
+    if form == "list-of-ints":
+        return tag, [r[0] if r else 0 for r in rows]
+    if form == "list-with-None":
+        return tag, [None if j == nf // 2 else np.array(r, dtype=np.int64) for j, r in enumerate(rows)]
+    if form == "list-of-floatlists":
+        return tag, [[float(x) + 0.5 for x in r] for r in rows]
+    return tag, ["zzz" if j == 0 else np.array(r, dtype=np.int64) for j, r in enumerate(rows)]
+
+
+def ep_init(ctx, P: C.Part, rng: np.random.Generator) -> None:
+    """Gen.result_init (driver, Float) vs the real SpectrumResult(results_dict, config, iscsd, fs) on generated dictionaries: raises / not,
+    ndim and dtype class of every stored value (the stored D above all), every number, nf, len(); the caller's dictionary is left untouched"""
+    from speckit.analysis import SpectrumResult
+    n_cases = ctx.scale(500, 4000)
+    for ci in range(n_cases):
+        nf = int(rng.choice([0, 1, 1, 2, 3, 5]))
+        reg = _EpOpaque()
+        d: Dict[str, Any] = {}
+        keys = [k for k in _EP_FLOAT_KEYS + _EP_INT_KEYS + ["XY", "D", "m", "label", "extra"] if rng.random() < 0.55]
+        if ci % 2 == 0 and "D" not in keys:
+            keys.append("D")
+        rng.shuffle(keys)
+        dtag = "absent"
+        simple = ci % 3 == 0            # every value in its canonical form except D: the constructor does not raise, so the D path is reached
+        for k in keys:
+            if k == "D":
+                dtag, d[k] = _ep_starts(rng, nf)
+            elif simple:
+                d[k] = (np.array(rng.integers(1, 99, size=nf), dtype=np.int64) if k in _EP_INT_KEYS else
+                        np.array(rng.normal(size=nf) + 1j * rng.normal(size=nf)) if k == "XY" else np.array(rng.normal(size=nf), dtype=np.float64))
+            else:
+                d[k] = _ep_vector(rng, nf, "int" if k in _EP_INT_KEYS else "float")
+        iscsd = bool(rng.integers(0, 2))
+        fs = float(np.round(rng.uniform(0.5, 1000.0), 3))
+        line = f"ep_init {int(iscsd)} {C.f2h(fs)} " + _ep_dict(d, reg)
+        if "?" in line:
+            P.notes.append("ep-init: generated a value outside the token grammar: " + line[:120])
+            continue
+        before = [(k, id(v), _ep_value(v, reg)) for k, v in d.items()]
+        cfg = {"tag": ci}
+        try:
+            with quiet():
+                res = SpectrumResult(d, cfg, iscsd, fs)
+            data = vars(res)["_data"]
+            impl = f"OK {int(res.nf)} {len(res)} {int(res.iscsd)} {C.f2h(res.fs)} " + _ep_dict(data, reg)
+            if vars(res)["_config"] is not cfg or vars(res)["_cache"] != {}:
+                impl += " ?config-or-cache"
+        except Exception as ex:  # noqa
+            impl = "RAISE"
+            exn = type(ex).__name__
+        after = [(k, id(v), _ep_value(v, reg)) for k, v in d.items()]
+        reply = ctx.driver.ask(line)
+        P.cases += 1
+        if reply.startswith("ERR"):
+            P.disagreements.append({"op": "ep_init", "model_error": reply[:200], "line": line[:400]})
+            continue
+        modelled, model = reply[0] == "1", reply[2:]
+        P.hit(f"ep.init.D.{dtag}")
+        P.hit("ep.init." + ("outside-model" if not modelled else "raises" if impl == "RAISE" else "ok"))
+        if before != after:
+            P.disagreements.append({"op": "ep_init", "problem": "the constructor changed the caller's dictionary", "before": str(before)[:300], "after": str(after)[:300]})
+        if not modelled:
+            continue
+        P.nontrivial.add(("ep-init", dtag, nf, tuple(sorted(d))[:6], impl == "RAISE"))
+        if impl != "RAISE" and "D" in d:
+            Dst = vars(res)["_data"]["D"]
+            P.hit(f"ep.init.stored-D.ndim{getattr(Dst, 'ndim', '?')}.{getattr(Dst, 'dtype', '?')}")
+        if "-9223372036854775808" in impl.split() and any(t in line for t in ("7ff0000000000000", "fff0000000000000", "7ff8000000000000")):
+            P.hit("ep.init.outside-model.nonfinite-cast-to-int64")      # C cast of NaN / inf: platform value, not modelled (EP.modelled docstring)
+            continue
+        if _ep_same(model, impl):
+            if len(P.samples) < 8 and impl != "RAISE" and "D" in d and ci % 7 == 0:
+                P.sample({"op": "ep_init", "D": dtag, "nf": nf, "keys": list(d), "impl": impl[:160]})
+            continue
+        P.disagreements.append({"op": "ep_init", "D": dtag, "nf": nf, "request": line[:1500], "model": model[:1500], "impl": impl[:1500],
+                                "exception": exn if impl == "RAISE" else None})
+
+
+def _ep_same(a: str, b: str) -> bool:
+    """token-wise equality; two NaN bit patterns count as equal"""
+    if a == b:
+        return True
+    ta, tb = a.split(), b.split()
+    if len(ta) != len(tb):
+        return False
+
+    def nanlike(t: str) -> bool:
+        try:
+            return len(t.lstrip("r")) == 16 and np.isnan(C.h2f(t.lstrip("r")))
+        except ValueError:
+            return False
+    return all(x == y or (nanlike(x) and nanlike(y)) for x, y in zip(ta, tb))
+
+
+class _EpRecorder:
+    """stand-in for SpectrumAnalyzer: records the construction and the method call as text"""
+
+    def __init__(self, *a, **k):
+        self._t = "SpectrumAnalyzer(" + ",".join([str(x) for x in a] + [f"{n}={v}" for n, v in k.items()]) + ")"
+
+    def __getattr__(self, name):
+        if name.startswith("_"):
+            raise AttributeError(name)
+        return lambda *a, **k: self._t + "." + name + "(" + ",".join([str(x) for x in a] + [f"{n}={v}" for n, v in k.items()]) + ")"
+
+
+def ep_entry(ctx, P: C.Part, rng: np.random.Generator) -> None:
+    """(1) the three generated wrappers (driver, over recording callables) vs the real wrappers run against a recording stand-in for SpectrumAnalyzer:
+    identical call traces for random keyword sets; (2) the real wrappers vs SpectrumAnalyzer(...).compute() / .compute_single_bin(...) bit for bit"""
+    import speckit.analysis as A
+    from unittest import mock
+    names = ["win", "olap", "Jdes", "Lmin", "bmin", "order", "psll", "band", "verbose", "scheduler", "Kdes", "force_target_nf", "backend"]
+    for ci in range(ctx.scale(120, 600)):
+        kw = {str(n): f"v{j}_{ci}" for j, n in enumerate(rng.permutation(names)[:int(rng.integers(0, 6))])}
+        which = ["lpsd", "compute_spectrum", "compute_single_bin"][ci % 3]
+        kwline = f"{len(kw)} " + " ".join(f"{k} {v}" for k, v in kw.items())
+        with mock.patch.object(A, "SpectrumAnalyzer", _EpRecorder):
+            try:
+                if which == "compute_single_bin":
+                    style = int(rng.integers(0, 4))
+                    opt = {}
+                    if style & 1:
+                        opt["fres"] = "FRES"
+                    if style & 2:
+                        opt["L"] = "LEN"
+                    if ci % 2:
+                        impl = A.compute_single_bin("DATA", "FS", "FREQ", **opt, **kw)
+                    else:
+                        impl = A.compute_single_bin(fs="FS", freq="FREQ", data="DATA", **kw, **opt)
+                    line = f"ep_entry {which} DATA FS FREQ {opt.get('fres')} {opt.get('L')} {kwline}"
+                else:
+                    impl = getattr(A, which)("DATA", "FS", **kw) if ci % 2 else getattr(A, which)(fs="FS", data="DATA", **kw)
+                    line = f"ep_entry {which} DATA FS {kwline}"
+            except Exception as ex:  # noqa
+                impl = "EXC:" + type(ex).__name__
+        model = ctx.driver.ask(line.strip())
+        P.cases += 1
+        P.hit(f"ep.entry.trace.{which}")
+        P.nontrivial.add(("ep-entry", which, tuple(sorted(kw))))
+        if model != impl:
+            P.disagreements.append({"op": "ep_entry", "which": which, "request": line, "model": model, "impl": impl})
+        elif ci < 3:
+            P.sample({"op": "ep_entry", "which": which, "trace": impl})
+    # (2) real analyses
+    fields = ("f", "r", "b", "L", "K", "navg", "O", "XX", "YY", "XY", "S12", "S2", "M2")
+    for ci in range(ctx.scale(6, 30)):
+        cross = bool(ci % 2)
+        N = int(rng.integers(300, 700))
+        x = rng.normal(size=(2, N)) if cross else rng.normal(size=N)
+        fs = float(rng.choice([1.0, 2.0, 100.0]))
+        kw: Dict[str, Any] = {"Jdes": int(rng.integers(5, 20)), "order": int(rng.choice([-1, 0, 1])), "win": str(rng.choice(["hann", "kaiser"]))}
+        if rng.random() < 0.5:
+            kw["Lmin"] = int(rng.integers(8, 40))
+        try:
+            with quiet():
+                ref = A.SpectrumAnalyzer(x, fs, **kw).compute()
+                outs = {"lpsd": A.lpsd(x, fs, **kw), "compute_spectrum": A.compute_spectrum(x, fs, **kw)}
+                fq = float(ref.f[len(ref.f) // 2])
+                Lb = int(ref.L[len(ref.f) // 2])
+                sb_ref = A.SpectrumAnalyzer(x, fs, **kw).compute_single_bin(freq=fq, fres=None, L=Lb)
+                sb = A.compute_single_bin(x, fs, fq, L=Lb, **kw)
+        except LIBERR as ex:  # noqa
+            P.notes.append(f"ep-entry real: {ex!r}"[:160])
+            continue
+        for nm, out in list(outs.items()) + [("compute_single_bin", sb)]:
+            base = sb_ref if nm == "compute_single_bin" else ref
+            P.cases += 1
+            P.hit(f"ep.entry.real.{nm}.{'cross' if cross else 'auto'}")
+            bad = [k for k in fields if k in vars(base)["_data"] and not bits_equal(vars(base)["_data"][k], vars(out)["_data"].get(k))]
+            Da, Db = vars(base)["_data"]["D"], vars(out)["_data"]["D"]
+            if len(Da) != len(Db) or any(not np.array_equal(a, b) for a, b in zip(Da, Db)):
+                bad.append("D")
+            if bad or out.iscsd != base.iscsd or out.fs != base.fs:
+                P.disagreements.append({"op": "ep_entry_real", "which": nm, "fields_differ": bad, "kwargs": {k: str(v) for k, v in kw.items()}, "N": N, "cross": cross})
+
+
+def ep_core(ctx, P: C.Part, rng: np.random.Generator) -> None:
+    """Gen._select_backend over the whole decision table (module flags patched, then restored) and Gen._check_starts_bounds on random / boundary starts"""
+    import speckit.core as K
+    from unittest import mock
+    for hint in ["auto", "cuda", "numba", "numpy", "AUTO", "gpu", "x", None]:
+        for cuda in (False, True):
+            for numba in (False, True):
+                for nseg in (0, 1, 999, 1000, 1001, 5000, -3):
+                    with mock.patch.object(K, "_CUDA_ENABLED", cuda), mock.patch.object(K, "_NUMBA_ENABLED", numba), \
+                            mock.patch.object(K, "_CUDA_ERROR", "" if nseg % 2 else "driver not found"):
+                        try:
+                            impl = "ok " + str(K._select_backend(nseg) if hint is None else K._select_backend(nseg, hint))
+                        except Exception as ex:  # noqa
+                            impl = "raise " + type(ex).__name__
+                    h = "auto" if hint is None else hint          # the default of the parameter (Gen._select_backend_default, proved = "auto")
+                    model = ctx.driver.ask(f"ep_backend {int(cuda)} {int(numba)} {nseg} {h}")
+                    P.cases += 1
+                    P.hit(f"ep.backend.{h}.{impl.split()[0]}")
+                    P.nontrivial.add(("ep-backend", h, cuda, numba, nseg))
+                    if model != impl:
+                        P.disagreements.append({"op": "ep_backend", "hint": hint, "cuda": cuda, "numba": numba, "K": nseg, "model": model, "impl": impl})
+    for ci in range(ctx.scale(400, 3000)):
+        N = int(rng.integers(1, 200))
+        L = int(rng.integers(1, N + 3))
+        n = int(rng.choice([0, 1, 2, 5, 9]))
+        starts = rng.integers(-2 if ci % 5 == 0 else 0, max(1, N - L + (3 if ci % 3 == 0 else 1)), size=n).astype(np.int64)
+        if n and ci % 4 == 0:
+            starts[int(rng.integers(0, n))] = N - L + int(rng.integers(-1, 2))          # the boundary max + L == N and its neighbours
+        try:
+            K._check_starts_bounds(N, starts, L)
+            impl = "ok"
+        except Exception as ex:  # noqa
+            impl = "raise " + type(ex).__name__
+        model = ctx.driver.ask(f"ep_bounds {N} {L} " + C.iarr(starts))
+        P.cases += 1
+        edge = n > 0 and int(starts.max()) + L == N
+        P.hit("ep.bounds." + impl.split()[0] + (".max+L==N" if edge else ""))
+        P.nontrivial.add(("ep-bounds", N, L, tuple(int(s) for s in starts)))
+        if model != impl:
+            P.disagreements.append({"op": "ep_bounds", "N": N, "L": L, "starts": [int(s) for s in starts], "model": model, "impl": impl})
+
+
+def corr_entry_points(ctx, P: C.Part) -> None:
+    """generated region EntryPoints (Gen/EntryPoints.lean, executed by the driver) vs the real code it was generated from"""
+    rng = np.random.default_rng(int(ctx.rng.integers(0, 2 ** 31 - 1)))        # child generator, drawn at the END of the existing correspondence
+    t0 = __import__("time").time()
+    for fn in (ep_init, ep_entry, ep_core):
+        if ctx.time_left() < 25:
+            P.notes.append(f"entry-points correspondence: time budget reached before {fn.__name__}")
+            break
+        try:
+            fn(ctx, P, rng)
+        except RuntimeError as ex:       # the driver does not serve the op (generated region broken)
+            P.disagreements.append({"op": fn.__name__, "model_error": str(ex)[:200]})
+    P.notes.append(f"entry-points correspondence: {__import__('time').time() - t0:.1f}s")
+
+
 def correspondence(ctx) -> C.Part:
     P = C.Part()
     _quiet_logs()
@@ -1449,6 +1900,8 @@ def correspondence(ctx) -> C.Part:
     corr_interp(ctx, P)
     # (d) the translated result-side glue: compute() assembly, __getattr__ cache protocol, get_measurement, to_dataframe / __dir__
     corr_result_queries(ctx, P, names)
+    # (e) the translated constructor of SpectrumResult, the module-level entry points, _select_backend, _check_starts_bounds
+    corr_entry_points(ctx, P)
     return P
 
 
